@@ -63,8 +63,8 @@ public:
       {
         size_t id = static_cast<size_t>(ids[i]);
         if (id >= prio_.size())
-          prio_.resize(id + 1, -1);
-        if (prio_[id] < 0)
+          prio_.resize(id + 1, kUnassigned);
+        if (prio_[id] == kUnassigned)  // (demoted priorities are negative: they must stay demoted)
           prio_[id] = 1000 + static_cast<int>(rd_.u8()) * 8 + static_cast<int>(id);
       }
       if (cur_runnable)
@@ -102,7 +102,7 @@ public:
     if (mode_ == 2 && id >= 0)
     {
       if (static_cast<size_t>(id) >= prio_.size())
-        prio_.resize(static_cast<size_t>(id) + 1, -1);
+        prio_.resize(static_cast<size_t>(id) + 1, kUnassigned);
       prio_[static_cast<size_t>(id)] = --lowest_;
     }
   }
@@ -121,6 +121,7 @@ public:
     return f;
   }
   static constexpr size_t kMaxTrace = 100000;
+  static constexpr int kUnassigned  = -2147483647;
 
 private:
   vh::Reader &rd_;
